@@ -85,6 +85,8 @@ class C18(Check):
                         nodes.append(c)
                 except NodeError:
                     c = None
+                except (AssertionError, ValueError, KeyError, TypeError):
+                    c = None  # the mutation left the abstract language's domain (e.g. a negative extent): no second workspace
 
             def harvest(node):
                 objs = []
